@@ -62,7 +62,7 @@ def exact_in(ticks: int, K: int, dtype: str) -> bool:
 
 def make_disk(K, slits, bp, ph, cw, f_hz: Fraction, aunit='deg', funit='Hz', order=None,
               scale: float = 1.0, *, bp_unit=None, ph_unit=None, adtype='float64', sdtype='float64',
-              fdtype='float64', layout='plain'):
+              fdtype='float64', layout='plain', bp_dtype=None, ph_dtype=None):
     """Real DiskChopper for a model configuration; `scale` multiplies the frequency (used for the
     in-phase tolerance probes only).
 
@@ -70,6 +70,8 @@ def make_disk(K, slits, bp, ph, cw, f_hz: Fraction, aunit='deg', funit='Hz', ord
       bp_unit, ph_unit  unit of beam position / phase when it differs from the unit of the slit edges
       adtype            dtype of the slit edge arrays ('int64' / 'float32': only in deg, where the tick grid is exact)
       sdtype            dtype of beam position and phase ('int64': only in deg on whole degrees)
+      bp_dtype, ph_dtype  dtype of one of the two when it differs from sdtype (an integer-typed beam position in
+                        deg next to a float phase in rad, and vice versa)
       fdtype            dtype of the frequency ('int64': the caller makes sure the value is whole in `funit`)
       layout            'plain'    contiguous begin / end arrays
                         'strided'  begin = edges[::2], end = edges[1::2] of one interleaved array
@@ -85,22 +87,23 @@ def make_disk(K, slits, bp, ph, cw, f_hz: Fraction, aunit='deg', funit='Hz', ord
     if adtype != 'float64':
         if aunit != 'deg' or not all(exact_in(x, K, adtype) for s in slits for x in s):
             raise AssertionError(f'slit edges are not exact in {adtype}')
-    if sdtype != 'float64':
-        if not (exact_in(bp, K, sdtype) and exact_in(ph, K, sdtype)) or 'rad' in (bp_unit or aunit, ph_unit or aunit):
-            raise AssertionError(f'beam position / phase are not exact in {sdtype}')
+    bp_dtype, ph_dtype = bp_dtype or sdtype, ph_dtype or sdtype
+    for t_, dt_, un_ in ((bp, bp_dtype, bp_unit or aunit), (ph, ph_dtype, ph_unit or aunit)):
+        if dt_ != 'float64' and (not exact_in(t_, K, dt_) or un_ == 'rad'):
+            raise AssertionError(f'beam position / phase are not exact in {dt_}')
     fval = sign * freq_value(f_hz, funit) * scale
     if fdtype == 'int64':
         if fval != int(fval) or scale != 1.0:
             raise AssertionError('frequency is not a whole number in its unit')
         fval = int(fval)
 
-    def scalar_angle(t, unit):
+    def scalar_angle(t, unit, dt):
         v = angle_value(t, K, unit)
-        return sc.scalar(int(v) if sdtype == 'int64' else v, unit=unit, dtype=sdtype)
+        return sc.scalar(int(v) if dt == 'int64' else v, unit=unit, dtype=dt)
 
     frequency = sc.scalar(fval, unit=funit, dtype=fdtype)
-    beam_position = scalar_angle(bp, bp_unit or aunit)
-    phase = scalar_angle(ph, ph_unit or aunit)
+    beam_position = scalar_angle(bp, bp_unit or aunit, bp_dtype)
+    phase = scalar_angle(ph, ph_unit or aunit, ph_dtype)
     axle = sc.vector([0.0, 0.0, 6.5], unit='m')
     if layout in ('strided', 'nexus'):
         inter = [x for pair in zip(begin, end) for x in pair]
